@@ -5,6 +5,7 @@ import contextlib
 import copy
 import json
 import random
+import re
 from typing import Any
 
 from vp import core
@@ -32,11 +33,24 @@ META = {
         "inline_block_users_unreported_counterexample), fixpoint_on_return (when rewrite_region returns in recursive "
         "mode no attached op has a flag-setting call left and the post-walk reports no change, given patterns are "
         "functions of the IR that mutate it only through the rewriter; via process_quiet/sweep_quiet: a sweep that "
-        "reports nothing visited every attached op).  The model is tied to /repo by replaying, for generated IR × "
+        "reports nothing visited every attached op); the C12 refinement on the driver's own worklist operations: "
+        "exec_worklist_spec (after a rewriter call the worklist holds exactly what it held plus what the handlers push "
+        "minus the erased op and the ops nested in it), erase_unqueues, exec_keeps_queued (no live queued op is dropped), "
+        "exec_queues_notified, pop_lifo_top / pop_pick_removes (which op is handed out next and what remains); histories "
+        "of several rewrite_region/rewrite_module calls on ONE walker with walker.listener edited in between "
+        "(`Walker`, `call`, `history`): call_delivers, history_view (a handler receives, in order, exactly the listener "
+        "logs of the calls made while it was on walker.listener — _get_rewriter_listener is evaluated per call), "
+        "history_all_notified_partial.  The model is tied to /repo by replaying, for generated IR × "
         "generated terminating pattern sets × all walk configurations × perturbed worklist orders, the calls recorded "
         "on the real PatternRewriter through the closed Lean driver `rewriteRegion` and comparing its whole trace "
         "(populate pushes, invocation order, has_done_action, worklist contents, listener events and attached set "
-        "after every match and post-walk, returned flag) with the instrumented real walker; independent direct "
+        "after every match and post-walk, returned flag, and per call what every handler set on walker.listener heard) "
+        "with the instrumented real walker — for single calls and for histories of up to three calls on one walker "
+        "(handlers appended to walker.listener / the listener replaced / exhausted countdown markers re-armed by the "
+        "user between calls; later calls on the module body or on a closed inner region); the complete "
+        "push/remove/pop/__bool__ trace of the walker's real Worklist object over the whole history is checked against "
+        "an independent duplicate-free stack after every operation (result and contents) and replayed on the Lean "
+        "worklist model XdslModel/Worklist.lean (correspondence:C11/worklist); independent direct "
         "oracles check the five clauses of the sentence on the real walker (fresh non-recursive re-application must "
         "change nothing; text changed ⇒ returned True; no invocation on a detached/erased op; every rewriter call and "
         "every op-level IR difference of a match is matched by listener events; IR changed in a match ⇒ has_done_action)."
@@ -56,15 +70,24 @@ META = {
         "and folding are not exercised.  replace_uses_with_if is exercised with predicates by use.index, by user "
         "operation, strict subsets, all and none on values used in several operand slots of one op and across ops; "
         "replace_value_with_new_type on results (owner must be notified) and on block arguments (users of a retyped "
-        "value keep the 'same' operand: not counted as modified)."
+        "value keep the 'same' operand: not counted as modified).  Patterns may erase ops other than the matched "
+        "one (unused siblings, incl. ops inserted by earlier matches that are still queued).  Histories: 'registered "
+        "listeners' of a call = the handlers held by walker.listener when rewrite_region/rewrite_module is called; "
+        "events delivered to handlers that are no longer on walker.listener are not judged.  A later call is made on "
+        "an inner region only when no op under it uses a value defined outside (so that everything a pattern touches "
+        "is under the region handed to the walker).  A run that exceeds the invocation bound, or in which a pattern "
+        "leaves the quantifier, is an infrastructure error unless the walker misbehaved first (worklist trace "
+        "diverged from the duplicate-free stack, or a pattern was invoked on a detached op): lost or stale worklist "
+        "entries make terminating pattern sets loop."
     ),
     "rule": (
-        "case = (IR spec, pattern set, walk configuration, schedule); non-trivial = at least one match executed a "
-        "rewriter call; distinct = distinct (canonical IR spec, patterns, config, schedule seed)."
+        "case = (IR spec, pattern set, walk configuration, schedule, history of later calls on the same walker); "
+        "non-trivial = at least one match of some call executed a rewriter call; distinct = distinct (canonical IR "
+        "spec, patterns, config, schedule seed, history)."
     ),
     "trusted_base": [
-        "trace correspondence harness harness/props/c11.py (instrumented PatternRewriter methods, perturbed worklist subclass)",
-        "hand-written Lean model XdslModel/RewriteDriver.lean over the C12 worklist model",
+        "trace correspondence harness harness/props/c11.py (instrumented PatternRewriter methods, recording/perturbed worklist subclass)",
+        "hand-written Lean model XdslModel/RewriteDriver.lean over the C12 worklist model XdslModel/Worklist.lean",
     ],
     "budget": {"quick": 55, "thorough": 900},
 }
@@ -558,7 +581,44 @@ def make_patterns(names: list, lab: Labels) -> list[Any]:
                 if blocks and blocks[0].args and blocks[0].args[0].type == T:
                     rewriter.replace_value_with_new_type(blocks[0].args[0], U)
 
+    class Kill(RewritePattern):
+        """erase an unused SIBLING of the matched op (nxt=0: the previous op, 1: the next op): an op other
+        than the one being rewritten, typically still queued — or queued again by an earlier match"""
+        def __init__(self, nxt: int):
+            self.nxt = nxt
+
+        def match_and_rewrite(self, op, rewriter: PatternRewriter):
+            name = "kn" if self.nxt else "kp"
+            n = attr(op, name)
+            if n is None or n <= 0 or op.name == "builtin.module":
+                return
+            victim = op.next_op if self.nxt else op.prev_op
+            if victim is None or not unused(victim):
+                return
+            rewriter.erase(victim)
+            op.attributes[name] = IntAttr(n - 1)
+            rewriter.notify_op_modified(op)
+
+    class Expand(RewritePattern):
+        """insert TWO fresh ops next to the matched op, one of which is marked to erase the other when it
+        is visited itself (shape 0: [victim, killer-of-previous], 1: [killer-of-next, victim])"""
+        def __init__(self, after: int, shape: int):
+            self.after, self.shape = after, shape
+
+        def match_and_rewrite(self, op, rewriter: PatternRewriter):
+            n = attr(op, "x")
+            if n is None or n <= 0 or op.name == "builtin.module":
+                return
+            if self.shape == 0:
+                ops = [new_op((), 1, {"c": 1}), new_op((), 0, {"kp": 1})]
+            else:
+                ops = [new_op((), 0, {"kn": 1}), new_op((), 1, {"c": 1})]
+            rewriter.insert(ops, InsertPoint.after(op) if self.after else InsertPoint.before(op))
+            op.attributes["x"] = IntAttr(n - 1)
+            rewriter.notify_op_modified(op)
+
     table = {
+        "kill": Kill, "expand": Expand,
         "rauw_if": RauwIf, "dedup": DedupOperand, "retype": Retype,
         "erase": Erase, "replace": Replace, "forward": Forward, "insert": Insert, "modify": Modify,
         "inline": Inline, "barg_add": BlockArgAdd, "barg_erase": BlockArgErase,
@@ -571,14 +631,29 @@ def make_patterns(names: list, lab: Labels) -> list[Any]:
 PATTERN_ATTR = {
     "erase": "e", "replace": "r", "forward": "fw", "insert": "i", "modify": "c", "inline": "l",
     "barg_add": "ba", "barg_erase": "be", "barg_replace": "br", "rauw": "u", "create_block": "cb",
-    "replace_region": "rr", "rauw_if": "ui", "dedup": "ud", "retype": "ty",
+    "replace_region": "rr", "rauw_if": "ui", "dedup": "ud", "retype": "ty", "expand": "x",
 }
+
+
+def pattern_attr(p: list) -> str:
+    """the marker attribute the pattern variant looks for"""
+    if p[0] == "kill":
+        return "kn" if p[1] else "kp"
+    if p == ["retype", 1]:
+        return "tb"
+    return PATTERN_ATTR[p[0]]
+
+
+# countdown markers: a pattern acts on an op only while its marker is positive; `rearm` (user code between two
+# calls of one walker) sets exhausted markers back to 1
+COUNTDOWN_ATTRS = ("r", "i", "c", "rr", "kp", "kn", "x")
 PATTERN_VARIANTS = [
     ["erase"], ["replace", 0], ["replace", 1], ["forward"], ["insert", 0, 0], ["insert", 1, 1], ["insert", 0, 1],
     ["modify"], ["inline", 0], ["inline", 1], ["barg_add"], ["barg_erase"], ["barg_replace"], ["rauw"],
     ["create_block", 0], ["create_block", 1], ["replace_region"],
     ["rauw_if", 0], ["rauw_if", 1], ["rauw_if", 2], ["rauw_if", 3], ["rauw_if", 4], ["dedup"],
     ["retype", 0], ["retype", 1],
+    ["kill", 0], ["kill", 1], ["expand", 0, 0], ["expand", 1, 0], ["expand", 0, 1], ["expand", 1, 1],
 ]
 
 
@@ -610,9 +685,10 @@ def show_action(a: tuple) -> str:
 
 
 @contextlib.contextmanager
-def patched_rewriter(rec: dict, lab: Labels, root_region: Any):
+def patched_rewriter(rec: dict, lab: Labels, get_root: Any):
     """Wrap the PatternRewriter mutators so that every call is recorded together with the data the
-    listeners are going to read from the IR (computed here by independent traversal)."""
+    listeners are going to read from the IR (computed here by independent traversal).  `get_root()` is the
+    region handed to the running rewrite_region call."""
     from xdsl.ir import ErasedSSAValue, Operation
     from xdsl.pattern_rewriter import PatternRewriter
 
@@ -647,15 +723,15 @@ def patched_rewriter(rec: dict, lab: Labels, root_region: Any):
     def need_attached(ops, what: str) -> None:
         # hypothesis `Disciplined.pat_wf` of the Lean theorems: ops handed to listeners are attached
         for o in ops:
-            if not is_attached(o, root_region):
+            if not is_attached(o, get_root()):
                 rec["undisciplined"].append(f"{what}: op {lab.op(o)} is not attached")
 
     def b_insert(self, op, insertion_point=None):
         ops = (op,) if isinstance(op, Operation) else tuple(op)
         ip = self.insertion_point if insertion_point is None else insertion_point
         host = ip.block
-        host_ok = host.parent is not None and (host.parent is root_region or (
-            host.parent.parent is not None and is_attached(host.parent.parent, root_region)))
+        host_ok = host.parent is not None and (host.parent is get_root() or (
+            host.parent.parent is not None and is_attached(host.parent.parent, get_root())))
         for o in ops:
             add(("ins", lab.op(o), [lab.op(x) for x in nested_ops(o)]))
             if not host_ok:
@@ -782,8 +858,57 @@ def snapshot(root_region: Any, lab: Labels) -> dict[int, tuple]:
     return out
 
 
+def region_closed(region: Any) -> bool:
+    """no op under `region` uses a value defined outside of it (then everything a generated pattern touches
+    when it is applied to an op of the region — users, operand definers, siblings — is under the region)"""
+    from xdsl.ir import Block, Operation
+
+    inside_ops = {id(o) for o in region_ops_preorder(region)}
+
+    def block_inside(b: Any) -> bool:
+        cur = b
+        for _ in range(10000):
+            reg = cur.parent
+            if reg is None:
+                return False
+            if reg is region:
+                return True
+            op = reg.parent
+            if op is None or op.parent is None:
+                return False
+            cur = op.parent
+        return False
+
+    for o in region_ops_preorder(region):
+        for v in o.operands:
+            owner = v.owner
+            if isinstance(owner, Operation):
+                if id(owner) not in inside_ops:
+                    return False
+            elif isinstance(owner, Block):
+                if not block_inside(owner):
+                    return False
+            else:
+                return False
+    return True
+
+
+def stages_of(case: dict) -> list[dict]:
+    """the calls made on the ONE walker of the case: the first one, then `case["hist"]`"""
+    return [{"edit": "none", "rearm": 0, "target": "module"}] + list(case.get("hist", []))
+
+
+def all_stages(obs: dict) -> list[dict]:
+    return [obs] + obs.get("more", [])
+
+
 def run_real(case: dict, observe: bool = True) -> dict:
-    """Run the real walker on the case with full instrumentation.  Returns the observation dict."""
+    """Run the real walker on the case with full instrumentation: one PatternRewriteWalker object, one or
+    several rewrite_module/rewrite_region calls on it (`case["hist"]`: per later call an edit of
+    walker.listener, an optional re-arming of the IR by the user, the region handed to the call).
+    Returns the observation dict of the first call; the later calls are under "more"; the whole
+    push/remove/pop/bool trace of the walker's worklist object is under "wl_trace"."""
+    from xdsl.dialects.builtin import IntAttr
     from xdsl.pattern_rewriter import (
         GreedyRewritePatternApplier,
         PatternRewriter,
@@ -796,7 +921,11 @@ def run_real(case: dict, observe: bool = True) -> dict:
 
     cfg = case["cfg"]
     module, lab = build_ir(case["ir"])
-    root = module.body
+    rootc: dict[str, Any] = {"r": module.body}
+
+    def root() -> Any:
+        return rootc["r"]
+
     pats = make_patterns(case["pats"], lab)
     if cfg.get("applier", "greedy") == "greedy":
         inner: Any = GreedyRewritePatternApplier(pats, dce_enabled=bool(cfg.get("dce", 0)))
@@ -812,16 +941,18 @@ def run_real(case: dict, observe: bool = True) -> dict:
                     p.match_and_rewrite(op, rewriter)
         inner = Seq()
 
-    obs: dict[str, Any] = {
-        "matches": [], "sweeps": [], "posts": [], "undisciplined": [], "complaints": [],
-        "initial_text": print_module(module), "init": sorted(lab.op(o) for o in region_ops_preorder(root)),
-    }
-    rec: dict[str, Any] = {"cur": [], "undisciplined": obs["undisciplined"]}
-    events: list[list[str]] = [[], []]   # what each registered handler set saw
+    undisciplined: list[str] = []
+    rec: dict[str, Any] = {"cur": [], "undisciplined": undisciplined}
+    events: list[list[str]] = []      # what each handler set saw (index = handler set)
+    registered: list[int] = []        # handler sets currently held by walker.listener, in list order
+    wl_trace: list[list] = []         # [op, arg, output, items present afterwards (bottom first)]
+    cur: dict[str, Any] = {}          # observation dict of the running call
 
-    def handlers(k: int) -> dict[str, list]:
-        ev = events[k]
-        return {
+    def handlers() -> tuple[int, dict[str, list]]:
+        k = len(events)
+        ev: list[str] = []
+        events.append(ev)
+        return k, {
             "operation_insertion_handler": [lambda op: ev.append(f"i{lab.op(op)}")],
             "operation_removal_handler": [lambda op: ev.append(f"x{lab.op(op)}")],
             "operation_modification_handler": [lambda op: ev.append(f"m{lab.op(op)}")],
@@ -829,29 +960,62 @@ def run_real(case: dict, observe: bool = True) -> dict:
             "block_creation_handler": [lambda b: ev.append("b")],
         }
 
-    lst_mode = cfg.get("lst", 1)
-    listener = PatternRewriterListener(**handlers(0))
-    if lst_mode == 2:
-        for k, v in handlers(1).items():
-            getattr(listener, k).extend(v)
+    def marks() -> list[int]:
+        return [len(e) for e in events]
 
-    tracer_state = {"in_populate": False, "pushes": [], "invocations": 0}
+    def since(e0: list[int]) -> dict[int, list[str]]:
+        return {k: list(events[k][(e0[k] if k < len(e0) else 0):]) for k in range(len(events))}
+
+    def primary(evs: dict[int, list[str]]) -> list[str]:
+        return evs[registered[0]] if registered else []
+
+    tracer_state: dict[str, Any] = {"in_populate": False, "pushes": [], "invocations": 0}
     rng = random.Random(f"wl:{cfg['perturb']}") if cfg.get("perturb") is not None else None
 
     class TraceWL(Worklist):  # type: ignore[type-arg]
+        """the walker's worklist: the real Worklist, every operation recorded with its result and the
+        items present afterwards; with a schedule seed `pop` hands out a random present item (taken out
+        with the real `remove`)"""
+        def _log(self, op: str, arg: Any, out: str) -> None:
+            wl_trace.append([op, arg, out, [lab.op(x) for x in self.present()]])
+
         def push(self, item):
             if tracer_state["in_populate"]:
                 tracer_state["pushes"].append(lab.op(item))
-            super().push(item)
+            try:
+                super().push(item)
+            except Exception as e:  # noqa: BLE001
+                self._log("push", lab.op(item), "raise " + core.exc_name(e))
+                raise
+            self._log("push", lab.op(item), "ok")
+
+        def remove(self, item):
+            try:
+                super().remove(item)
+            except Exception as e:  # noqa: BLE001
+                self._log("remove", lab.op(item), "raise " + core.exc_name(e))
+                raise
+            self._log("remove", lab.op(item), "ok")
+
+        def __bool__(self):
+            r = super().__bool__()
+            self._log("bool", None, "bool " + ("true" if r else "false"))
+            return r
 
         def pop(self):
             it = self._pop()
-            tracer_state["last_pop"] = (lab.op(it), is_attached(it, root))
+            tracer_state["last_pop"] = (lab.op(it), is_attached(it, root()))
             return it
 
         def _pop(self):
             if rng is None:
-                return super().pop()
+                try:
+                    it = super().pop()
+                except Exception as e:  # noqa: BLE001
+                    self._log("pop", None, "raise " + core.exc_name(e))
+                    raise
+                self._log("pop", None, f"item {lab.op(it)}")
+                return it
             items = self.present()
             if not items:
                 raise IndexError("pop from empty worklist")
@@ -868,13 +1032,13 @@ def run_real(case: dict, observe: bool = True) -> dict:
             tracer_state["invocations"] += 1
             if tracer_state["invocations"] > MAX_INVOCATIONS:
                 raise Abort()
-            att = is_attached(op, root)
+            att = is_attached(op, root())
             m: dict[str, Any] = {"op": lab.op(op), "attached": att, "erased": op.parent is None}
             if observe:
-                snap0 = snapshot(root, lab)
+                snap0 = snapshot(root(), lab)
                 text0 = print_module(module)
             rec["cur"] = []
-            e0 = [len(events[0]), len(events[1])]
+            e0 = marks()
             raised = None
             try:
                 inner.match_and_rewrite(op, rewriter)
@@ -885,12 +1049,12 @@ def run_real(case: dict, observe: bool = True) -> dict:
             m["flag"] = bool(rewriter.has_done_action)
             m["acts"] = rec["cur"]
             rec["cur"] = []
-            m["events"] = events[0][e0[0]:]
-            m["events2"] = events[1][e0[1]:]
+            m["ev_all"] = since(e0)
+            m["events"] = primary(m["ev_all"])
             m["wl"] = [lab.op(x) for x in reversed(walker._worklist.present())]
-            m["att_after"] = sorted(lab.op(o) for o in region_ops_preorder(root))
+            m["att_after"] = sorted(lab.op(o) for o in region_ops_preorder(root()))
             if observe:
-                snap1 = snapshot(root, lab)
+                snap1 = snapshot(root(), lab)
                 try:
                     text1 = print_module(module)
                 except Exception as e:  # noqa: BLE001
@@ -901,10 +1065,10 @@ def run_real(case: dict, observe: bool = True) -> dict:
                 m["modified"] = sorted(k for k in snap0 if k in snap1 and snap0[k] != snap1[k])
                 # ancestors (for coverage of nested ops by the event of an ancestor)
                 m["new_anc"] = {}
-                for o in region_ops_preorder(root):
+                for o in region_ops_preorder(root()):
                     if lab.op(o) in m["new"]:
                         m["new_anc"][lab.op(o)] = [lab.op(a) for a in ancestors(o)]
-            obs["matches"].append(m)
+            cur["matches"].append(m)
             if raised is not None:
                 m["raised"] = core.exc_name(raised)
                 raise raised
@@ -915,7 +1079,7 @@ def run_real(case: dict, observe: bool = True) -> dict:
     if cfg.get("post"):
         def post(region, l):
             from xdsl.ir import ErasedSSAValue, Operation
-            e0 = len(events[0])
+            e0 = marks()
             acts: list[tuple] = []
 
             class Proxy:
@@ -927,26 +1091,38 @@ def run_real(case: dict, observe: bool = True) -> dict:
                     acts.append(("erase", lab.op(op), [lab.op(x) for x in nested_ops(op)], defs))
                     l.handle_operation_removal(op)
 
-            att0 = {lab.op(o) for o in region_ops_preorder(root)}
+            att0 = {lab.op(o) for o in region_ops_preorder(root())}
             r = region_dce(region, Proxy())
-            att1 = {lab.op(o) for o in region_ops_preorder(root)}
+            att1 = {lab.op(o) for o in region_ops_preorder(root())}
             covered = set()
             for a in acts:
                 covered |= {a[1], *a[2]}
-            obs["posts"].append({
-                "n": len(obs["matches"]), "ret": bool(r), "events": events[0][e0:], "acts": acts,
+            ev_all = since(e0)
+            cur["posts"].append({
+                "n": len(cur["matches"]), "ret": bool(r), "events": primary(ev_all), "ev_all": ev_all, "acts": acts,
                 "wl": [lab.op(x) for x in reversed(walker._worklist.present())],
                 "att_after": sorted(att1), "silently_gone": sorted((att0 - att1) - covered),
             })
             return r
         kwargs["post_walk_func"] = post
-    if lst_mode in (1, 2):
-        walker = PatternRewriteWalker(top, listener=listener, **kwargs)
-    elif lst_mode == 3:
+
+    lst_mode = cfg.get("lst", 1)
+    if lst_mode == 0:
         walker = PatternRewriteWalker(top, **kwargs)
-        walker.listener = listener
     else:
-        walker = PatternRewriteWalker(top, **kwargs)
+        k0, h0 = handlers()
+        listener = PatternRewriterListener(**h0)
+        registered.append(k0)
+        if lst_mode == 2:
+            k1, h1 = handlers()
+            for name, v in h1.items():
+                getattr(listener, name).extend(v)
+            registered.append(k1)
+        if lst_mode == 3:
+            walker = PatternRewriteWalker(top, **kwargs)
+            walker.listener = listener
+        else:
+            walker = PatternRewriteWalker(top, listener=listener, **kwargs)
     walker._worklist = TraceWL()
 
     orig_populate = walker._populate_worklist
@@ -959,44 +1135,102 @@ def run_real(case: dict, observe: bool = True) -> dict:
             orig_populate(region)
         finally:
             tracer_state["in_populate"] = False
-        obs["sweeps"].append({"n": len(obs["matches"]), "pushes": list(tracer_state["pushes"]),
+        cur["sweeps"].append({"n": len(cur["matches"]), "pushes": list(tracer_state["pushes"]),
                               "intended": intended})
 
     walker._populate_worklist = populate  # type: ignore[method-assign]
 
-    obs["ret"] = None
-    obs["raised"] = None
-    with patched_rewriter(rec, lab, root):
+    def rearm() -> None:
+        """user code between two calls: exhausted countdown markers are set to 1 again"""
+        for o in region_ops_preorder(module.body):
+            for name in COUNTDOWN_ATTRS:
+                a = o.attributes.get(name)
+                if isinstance(a, IntAttr) and a.data == 0:
+                    o.attributes[name] = IntAttr(1)
+
+    def pick_target(kind: str) -> Any:
+        if kind == "inner":
+            for o in module.body.block.ops:
+                if o.regions and list(o.regions[0].blocks) and region_closed(o.regions[0]):
+                    return o.regions[0]
+        return module.body
+
+    all_obs: list[dict] = []
+    n_first_sets = 0
+    for si, st in enumerate(stages_of(case)):
+        # --- what the user does between two calls
+        edit_line = None
+        if st.get("edit") == "add":
+            k, h = handlers()
+            for name, v in h.items():
+                getattr(walker.listener, name).extend(v)
+            registered.append(k)
+            edit_line = f"listener add {k}"
+        elif st.get("edit") == "replace":
+            k, h = handlers()
+            walker.listener = PatternRewriterListener(**h)
+            registered[:] = [k]
+            edit_line = f"listener replace {k}"
+        if st.get("rearm"):
+            rearm()
+        rootc["r"] = pick_target(st.get("target", "module"))
+        tracer_state["invocations"] = 0
+        tracer_state.pop("last_pop", None)
+        if si == 0:
+            n_first_sets = len(events)
+        obs: dict[str, Any] = {
+            "stage": si, "matches": [], "sweeps": [], "posts": [], "undisciplined": undisciplined,
+            "initial_text": print_module(module), "init": sorted(lab.op(o) for o in region_ops_preorder(root())),
+            "registered": list(registered),
+            # handler sets that were put on walker.listener after the first call of this walker
+            "late": [k for k in registered if k >= n_first_sets],
+            "edit_line": edit_line, "whole_module": root() is module.body, "wl_start": len(wl_trace),
+        }
+        cur = obs
+        all_obs.append(obs)
+        obs["ret"] = None
+        obs["raised"] = None
+        e_start = marks()
+        with patched_rewriter(rec, lab, root):
+            try:
+                if root() is module.body:
+                    obs["ret"] = bool(walker.rewrite_module(module))
+                else:
+                    obs["ret"] = bool(walker.rewrite_region(root()))
+            except Abort:
+                obs["raised"] = "Abort"
+            except Exception as e:  # noqa: BLE001
+                obs["raised"] = core.exc_name(e) + ": " + re.sub(r"\b\d{9,}\b", "#", str(e)[:200])
+        obs["stage_events"] = since(e_start)
+        obs["leftover_wl"] = [lab.op(x) for x in walker._worklist.present()]
+        obs["last_pop"] = tracer_state.get("last_pop")
         try:
-            obs["ret"] = bool(walker.rewrite_module(module))
-        except Abort:
-            obs["raised"] = "Abort"
+            obs["final_text"] = print_module(module)
         except Exception as e:  # noqa: BLE001
-            obs["raised"] = core.exc_name(e) + ": " + str(e)[:200]
-    obs["leftover_wl"] = [lab.op(x) for x in walker._worklist.present()]
-    obs["last_pop"] = tracer_state.get("last_pop")
-    try:
-        obs["final_text"] = print_module(module)
-    except Exception as e:  # noqa: BLE001
-        obs["final_text"] = "unprintable:" + core.exc_name(e)
-    obs["lst_mode"] = lst_mode
+            obs["final_text"] = "unprintable:" + core.exc_name(e)
+        obs["lst_mode"] = lst_mode
 
-    # fixpoint probe: a fresh non-recursive walk with the same patterns must change nothing
-    if obs["raised"] is None and cfg["rec"]:
-        probe_inv: list[int] = []
+        # fixpoint probe: a fresh non-recursive walk with the same patterns must change nothing
+        if obs["raised"] is None and cfg["rec"]:
+            probe_inv: list[int] = []
 
-        class Probe(RewritePattern):
-            def match_and_rewrite(self, op, rewriter):
-                probe_inv.append(lab.op(op))
-                inner.match_and_rewrite(op, rewriter)
+            class Probe(RewritePattern):
+                def match_and_rewrite(self, op, rewriter):
+                    probe_inv.append(lab.op(op))
+                    inner.match_and_rewrite(op, rewriter)
 
-        try:
-            r2 = PatternRewriteWalker(Probe(), apply_recursively=False).rewrite_module(module)
-            obs["probe"] = {"ret": bool(r2), "text_same": print_module(module) == obs["final_text"],
-                            "visited": len(probe_inv)}
-        except Exception as e:  # noqa: BLE001
-            obs["probe"] = {"raised": core.exc_name(e)}
-    return obs
+            try:
+                r2 = PatternRewriteWalker(Probe(), apply_recursively=False).rewrite_region(root())
+                obs["probe"] = {"ret": bool(r2), "text_same": print_module(module) == obs["final_text"],
+                                "visited": len(probe_inv)}
+            except Exception as e:  # noqa: BLE001
+                obs["probe"] = {"raised": core.exc_name(e)}
+        if obs["raised"] is not None or undisciplined:
+            break
+    first = all_obs[0]
+    first["more"] = all_obs[1:]
+    first["wl_trace"] = wl_trace
+    return first
 
 
 # ---------------------------------------------------------------------------------------------
@@ -1022,20 +1256,88 @@ def demanded_events(acts: list) -> list[str]:
     return out
 
 
+WL_SITE = "xdsl.utils.worklist.Worklist."
+WL_SIG = "the walker's worklist does not behave like a duplicate-free LIFO stack"
+LATE_SIG = "handlers put on walker.listener after an earlier call of the same walker are not notified"
+
+
+def wl_spec_divergence(trace: list) -> tuple[int, str, list[int]] | None:
+    """independent reference for the worklist object: a duplicate-free stack (top at the end).  Returns the
+    first operation whose result or resulting contents differ: (index, expected result, expected items)."""
+    l: list[int] = []
+    for i, (op, arg, out, present) in enumerate(trace):
+        if op == "push":
+            if arg not in l:
+                l.append(arg)
+            exp = "ok"
+        elif op == "remove":
+            if arg in l:
+                l.remove(arg)
+            exp = "ok"
+        elif op == "pop":
+            exp = f"item {l.pop()}" if l else "raise IndexError"
+        else:
+            exp = "bool " + ("true" if l else "false")
+        if out != exp or present != l:
+            return i, exp, list(l)
+    return None
+
+
+def wl_complaint(obs: dict) -> tuple[str, str, str] | None:
+    trace = obs.get("wl_trace", [])
+    d = wl_spec_divergence(trace)
+    if d is None:
+        return None
+    i, exp, items = d
+    op, arg, out, present = trace[i]
+    before = [" ".join(str(x) for x in t[:2] if x is not None) for t in trace[max(0, i - 6):i]]
+    return (WL_SITE + ("__bool__" if op == "bool" else op), WL_SIG,
+            f"worklist operation #{i} `{op}{'' if arg is None else ' ' + str(arg)}` of the walker (after … {before}): "
+            f"result {out}, items present afterwards {present}; a duplicate-free stack gives {exp} and holds {items}")
+
+
 def oracle(case: dict, obs: dict) -> list[tuple[str, str, str]]:
-    """returns (call_site, signature, description) complaints"""
+    """returns (call_site, signature, description) complaints over all calls of the history"""
+    stages = all_stages(obs)
+    out: list[tuple[str, str, str]] = []
+    wl_bad = wl_complaint(obs)
+    if wl_bad is not None:
+        out.append(wl_bad)
+    detached = any(not m["attached"] for st in stages for m in st["matches"])
+    walker_at_fault = wl_bad is not None or detached
+    # a run that leaves the quantifier (non-terminating or undisciplined pattern set) is a harness defect —
+    # unless the walker misbehaved first (lost/stale worklist entries make terminating sets loop, and a pattern
+    # handed a detached op does undisciplined things)
+    if any(st["raised"] == "Abort" for st in stages) and not walker_at_fault:
+        raise core.InfraError(f"pattern set did not terminate: {json.dumps(case)[:300]}")
+    if obs["undisciplined"] and not walker_at_fault:
+        raise core.InfraError(f"generated pattern is outside the quantifier ({obs['undisciplined'][:2]}): {json.dumps(case)[:600]}")
+    for st in stages:
+        out.extend(oracle_stage(case, st, only_visits=bool(obs["undisciplined"]) or st["raised"] == "Abort"))
+    seen: set = set()
+    uniq = []
+    for c in out:
+        if (c[0], c[1]) not in seen:
+            seen.add((c[0], c[1]))
+            uniq.append(c)
+    return uniq
+
+
+def oracle_stage(case: dict, obs: dict, only_visits: bool = False) -> list[tuple[str, str, str]]:
+    """the five clauses of the sentence on one call"""
     out: list[tuple[str, str, str]] = []
     W = "xdsl.pattern_rewriter.PatternRewriteWalker"
     R = "xdsl.pattern_rewriter.PatternRewriter"
-    if obs["raised"] == "Abort":
-        raise core.InfraError(f"pattern set did not terminate: {json.dumps(case)[:300]}")
-    if obs["undisciplined"]:
-        raise core.InfraError(f"generated pattern is outside the quantifier ({obs['undisciplined'][:2]}): {json.dumps(case)[:600]}")
+    call = f"call #{obs['stage']} of the walker: " if obs["stage"] else ""
+    reg = obs["registered"]
+    late = set(obs["late"])
     for m in obs["matches"]:
         # (3) never invoked on an erased / detached op
         if not m["attached"]:
             out.append((W + "._process_worklist", "pattern invoked on an erased or detached operation",
-                        f"op {m['op']} was {'erased' if m['erased'] else 'detached from the root region'} when the pattern was invoked"))
+                        f"{call}op {m['op']} was {'erased' if m['erased'] else 'detached from the root region'} when the pattern was invoked"))
+    if only_visits:
+        return out
     if obs["raised"] is not None:
         # an exception escaping the walker although every pattern is well-behaved
         det = [m for m in obs["matches"] if not m["attached"]]
@@ -1044,10 +1346,25 @@ def oracle(case: dict, obs: dict) -> list[tuple[str, str, str]]:
             # the walker took an erased/detached op from the worklist and failed while preparing the
             # rewriter for it (InsertPoint.before needs a parent block): same stale-entry defect
             out.append((W + "._process_worklist", "pattern invoked on an erased or detached operation",
-                        f"op {lp[0]} was erased or detached when the walker popped it for rewriting; the walker raised {obs['raised']}"))
+                        f"{call}op {lp[0]} was erased or detached when the walker popped it for rewriting; the walker raised {obs['raised']}"))
         elif not det:
-            out.append((W + ".rewrite_region", "walker raised on a well-behaved pattern set", obs["raised"]))
+            out.append((W + ".rewrite_region", "walker raised on a well-behaved pattern set", call + obs["raised"]))
         return out
+
+    def handler_sets_agree(ev_all: dict, what: str) -> None:
+        # every handler set held by walker.listener when the call was made hears the same events
+        for k in reg[1:]:
+            if ev_all.get(k, []) != ev_all.get(reg[0], []):
+                kl = k if k in late else reg[0]
+                if kl in late:
+                    out.append((W + "._get_rewriter_listener", LATE_SIG,
+                                f"{call}{what}: handler set {reg[0]} saw {ev_all.get(reg[0], [])}, handler set {k} saw "
+                                f"{ev_all.get(k, [])}; set {kl} was put on walker.listener after the first call"))
+                else:
+                    out.append((W + "._get_rewriter_listener", "two registered handlers saw different events",
+                                f"{call}{what}: {ev_all.get(reg[0], [])} vs {ev_all.get(k, [])}"))
+                return
+
     for m in obs["matches"]:
         if "text_changed" not in m:
             continue
@@ -1058,10 +1375,10 @@ def oracle(case: dict, obs: dict) -> list[tuple[str, str, str]]:
             site = R + (".create_block" if kinds == ["blk"] else
                         ".replace_uses_with_if" if any(a[0] == "rauw" and len(a) > 3 for a in m["acts"]) else ".has_done_action")
             out.append((site, "has_done_action false after a match that mutated the IR",
-                        f"match on op {m['op']} made calls {kinds} and changed the IR but has_done_action is False"))
+                        f"{call}match on op {m['op']} made calls {kinds} and changed the IR but has_done_action is False"))
         # (4) every insertion / removal / replacement / modification is reported
-        if obs["lst_mode"] == 0:
-            continue   # no listener registered in this configuration: nothing to observe
+        if not reg:
+            continue   # no handler registered for this call: nothing to observe
         ev = list(m["events"])
         missing = []
         pool = list(ev)
@@ -1092,31 +1409,41 @@ def oracle(case: dict, obs: dict) -> list[tuple[str, str, str]]:
                 site, sig = R + ".inline_block", "operand rewrite of the block-argument users is not reported to listeners"
             elif any(a[0] == "rauw" and len(a) > 3 for a in m["acts"]) and all(x.startswith("m") for x in missing):
                 site, sig = R + ".replace_uses_with_if", "operand rewrite of an accepted use is not reported to listeners"
+            elif reg[0] in late:
+                site, sig = W + "._get_rewriter_listener", LATE_SIG
             else:
                 site, sig = R + ".handle_operation_*", "rewriter call not reported to the registered listeners"
-            out.append((site, sig, f"match on op {m['op']}: calls {[show_action(a) for a in m['acts']]} "
-                                   f"listener saw {ev}; unreported: {missing}"))
-        if obs["lst_mode"] == 2 and m["events"] != m["events2"]:
-            out.append((W + "._get_rewriter_listener", "two registered handlers saw different events",
-                        f"{m['events']} vs {m['events2']}"))
+            out.append((site, sig, f"{call}match on op {m['op']}: calls {[show_action(a) for a in m['acts']]} "
+                                   f"handler set {reg[0]} saw {ev}; unreported: {missing}"))
+        handler_sets_agree(m["ev_all"], f"match on op {m['op']}")
+    for p in obs["posts"]:
+        if not reg:
+            continue
+        missing = [f"x{a[1]}" for a in p["acts"] if a[0] == "erase" and f"x{a[1]}" not in p["events"]]
+        if missing:
+            site, sig = ((W + "._get_rewriter_listener", LATE_SIG) if reg[0] in late else
+                         (W + ".rewrite_region", "post-walk removal not reported to the registered listeners"))
+            out.append((site, sig, f"{call}post-walk function erased {[a[1] for a in p['acts']]} through the listener it "
+                                   f"was given; handler set {reg[0]} saw {p['events']}; unreported: {missing}"))
+        handler_sets_agree(p["ev_all"], "post-walk function")
     # (2) flag returned whenever the IR changed
     if obs["final_text"] != obs["initial_text"] and obs["ret"] is not True:
         out.append((W + ".rewrite_region", "IR changed but the walker returned False",
-                    "final text differs from the initial text, returned " + str(obs["ret"])))
+                    call + "final text differs from the initial text, returned " + str(obs["ret"])))
     # (1) fixpoint on return in recursive mode
     p = obs.get("probe")
     if p is not None:
         if "raised" in p:
-            out.append((W + ".rewrite_region", "re-applying the patterns after the walk raised", p["raised"]))
+            out.append((W + ".rewrite_region", "re-applying the patterns after the walk raised", call + p["raised"]))
         elif p["ret"] or not p["text_same"]:
             out.append((W + ".rewrite_region", "not a fixpoint: a pattern still changes the region after a recursive walk returned",
-                        f"fresh non-recursive walk returned {p['ret']}, text unchanged = {p['text_same']}"))
+                        f"{call}fresh non-recursive walk returned {p['ret']}, text unchanged = {p['text_same']}"))
     # configured visiting order on the first sweep (LIFO only)
     if obs["sweeps"] and case["cfg"].get("perturb") is None:
         s0 = obs["sweeps"][0]
         if s0["pushes"] != list(reversed(s0["intended"])):
             out.append((W + "._populate_worklist", "worklist is not populated in the reverse of the configured walk order",
-                        f"pushes {s0['pushes']} intended visiting order {s0['intended']}"))
+                        f"{call}pushes {s0['pushes']} intended visiting order {s0['intended']}"))
     return out
 
 
@@ -1125,9 +1452,16 @@ def oracle(case: dict, obs: dict) -> list[tuple[str, str, str]]:
 # ---------------------------------------------------------------------------------------------
 
 def model_lines(case: dict, obs: dict) -> list[str]:
+    """protocol lines of ONE call (`obs` = observation of that call); the calls of a history must be sent in
+    order: `next` keeps the model walker's worklist and registered handlers"""
     cfg = case["cfg"]
-    lines = [f"reset {int(bool(cfg['rec']))} {int(bool(cfg.get('post')))}",
-             "init " + " ".join(map(str, obs["init"]))]
+    head = "next" if obs["stage"] else "reset"
+    lines = [f"{head} {int(bool(cfg['rec']))} {int(bool(cfg.get('post')))}"]
+    if obs["stage"] == 0 and obs["registered"]:
+        lines.append("listener replace " + " ".join(map(str, obs["registered"])))
+    if obs.get("edit_line"):
+        lines.append(obs["edit_line"])
+    lines.append("init " + " ".join(map(str, obs["init"])))
     sweeps = {s["n"]: s for s in reversed(obs["sweeps"])}
     posts: dict[int, list] = {}
     for p in obs["posts"]:
@@ -1174,7 +1508,22 @@ def impl_trace(case: dict, obs: dict) -> str:
             out.append(f"P {'true' if changed else 'false'} | {' '.join(map(str, p['wl']))} | "
                        f"{' '.join(p['events'])} | {' '.join(map(str, p['att_after']))}")
     out.append(f"R {'true' if obs['ret'] else 'false'} used {len(obs['matches'])} of {len(obs['matches'])}")
+    # what every handler set held by walker.listener at the time of the call heard during the call
+    for k in obs["registered"]:
+        out.append(f"L {k}: {' '.join(obs['stage_events'].get(k, []))}")
     return " ; ".join(out)
+
+
+def wl_model_lines(trace: list) -> tuple[list[str], list[str]]:
+    """the walker's worklist trace as protocol lines of the C12 model `worklist` (+ the contents query after
+    every operation) and what the real worklist answered"""
+    lines, impl = ["reset"], ["ok"]
+    for op, arg, out, present in trace:
+        lines.append(op if arg is None else f"{op} {arg}")
+        impl.append(out)
+        lines.append("abs")
+        impl.append(" ".join(["items", *map(str, reversed(present))]))
+    return lines, impl
 
 
 # ---------------------------------------------------------------------------------------------
@@ -1222,19 +1571,41 @@ def seed_cases() -> list[dict]:
             for rec in (0, 1):
                 out.append({"ir": irs["region"], "pats": [["erase"], ["modify"], ["insert", 0, 1], ["inline", 0]],
                             "cfg": dict(base_cfg, rf=rf, rev=rev, rec=rec, applier="greedy", lst=2)})
+    # a match erases a queued sibling, later matches push fresh ops, one of which erases the other while it is
+    # still queued (worklist: remove below pushes, then remove of an item pushed after the hole)
+    sib = {"bid": 0, "ops": [op1(0, a={"kn": 1, "x": 1}), op1(1, a={"c": 1}), op1(2, a={"c": 1}), op1(3, a={"c": 1})]}
+    for rf in (0, 1):
+        out.append({"ir": sib, "pats": [["kill", 1], ["expand", 0, 0], ["kill", 0], ["modify"]],
+                    "cfg": dict(base_cfg, rf=rf, applier="greedy")})
+    # several calls on one walker, walker.listener edited in between
+    for edit in ("add", "replace"):
+        for rec in (1, 0):
+            out.append({"ir": irs["flat"], "pats": [["modify"], ["insert", 0, 1]],
+                        "cfg": dict(base_cfg, rec=rec, applier="greedy"),
+                        "hist": [{"edit": edit, "rearm": 1, "target": "module"},
+                                 {"edit": "add", "rearm": 1, "target": "module"}]})
     return out
 
 
 def gen_case(rng: random.Random, max_size: int) -> dict:
     k = rng.choice([1, 1, 2, 2, 3, 4])
     pvs = rng.sample(PATTERN_VARIANTS, k)
+    if rng.random() < 0.12:
+        # patterns that erase ops other than the matched one, with something that pushes fresh ops
+        pvs = [rng.choice([["kill", 0], ["kill", 1]]),
+               rng.choice([["expand", rng.randint(0, 1), rng.randint(0, 1)], ["insert", rng.randint(0, 1), 1],
+                           ["replace", 1], ["modify"]])] + pvs[:2]
+    # the ops made by `expand` carry a kill marker: the matching kill pattern belongs to the set
+    for pv in list(pvs):
+        if pv[0] == "expand" and ["kill", pv[2]] not in pvs:
+            pvs.append(["kill", pv[2]])
     post = int(rng.random() < 0.3)
     seen: set = set()
     pats = []
     for pv in pvs:
-        if pv[0] in seen or (pv[0] == "barg_erase" and "barg_add" in seen) or (pv[0] == "barg_add" and "barg_erase" in seen):
+        if (pv[0] in seen and pv[0] != "kill") or pv in pats or (pv[0] == "barg_erase" and "barg_add" in seen) or (pv[0] == "barg_add" and "barg_erase" in seen):
             continue   # add/erase of unused block arguments together would not terminate
-        dedup_ok = {"dedup", "modify", "insert", "erase", "retype", "barg_add", "create_block"}
+        dedup_ok = {"dedup", "modify", "insert", "erase", "retype", "barg_add", "create_block", "kill", "expand"}
         if (pv[0] == "dedup" and not seen <= dedup_ok) or ("dedup" in seen and pv[0] not in dedup_ok):
             continue   # dedup moves a use down to the previous op's result, the forwarding patterns move it
                        # back up: together they would not terminate
@@ -1243,8 +1614,7 @@ def gen_case(rng: random.Random, max_size: int) -> dict:
         seen.add(pv[0]); pats.append(pv)
     if not pats:
         pats = [["modify"]]
-    attrs = sorted({("tb" if p == ["retype", 1] else PATTERN_ATTR[p[0]]) for p in pats}
-                   | ({"c"} if rng.random() < 0.3 else set()))
+    attrs = sorted({pattern_attr(p) for p in pats} | ({"c"} if rng.random() < 0.3 else set()))
     # region_dce erases unreachable blocks wholesale (no listener call, C13's business): single-block
     # regions only when the post-walk function is installed
     ir = gen_ir(rng, rng.randint(1, max_size), attrs, rng.random() < 0.5 and not post)
@@ -1255,7 +1625,15 @@ def gen_case(rng: random.Random, max_size: int) -> dict:
         "perturb": rng.randrange(1 << 30) if rng.random() < 0.5 else None,
         "applier": applier, "dce": int(rng.random() < 0.3),
     }
-    return {"ir": ir, "pats": pats, "cfg": cfg}
+    case = {"ir": ir, "pats": pats, "cfg": cfg}
+    if rng.random() < 0.3:
+        # further calls on the same walker object; between two calls the user edits walker.listener, may re-arm
+        # exhausted countdown markers, and chooses the region for the next call
+        case["hist"] = [{"edit": rng.choice(["none", "add", "add", "replace", "replace"]),
+                         "rearm": rng.choice([0, 1, 1]),
+                         "target": rng.choice(["module", "module", "inner"])}
+                        for _ in range(rng.choice([1, 1, 2]))]
+    return case
 
 
 def ir_candidates(ir: dict):
@@ -1334,6 +1712,16 @@ def ir_candidates(ir: dict):
 
 
 def case_candidates(case: dict):
+    hist = case.get("hist", [])
+    for i in range(len(hist)):
+        c = copy.deepcopy(case); del c["hist"][i]
+        if not c["hist"]:
+            del c["hist"]
+        yield c
+    for i, st in enumerate(hist):
+        for k, v in (("target", "module"), ("rearm", 0), ("edit", "none")):
+            if st.get(k) != v:
+                c = copy.deepcopy(case); c["hist"][i][k] = v; yield c
     for i in range(len(case["pats"])):
         if len(case["pats"]) > 1:
             c = copy.deepcopy(case); del c["pats"][i]; yield c
@@ -1347,11 +1735,15 @@ def case_candidates(case: dict):
         c = copy.deepcopy(case); c["ir"] = ir; yield c
 
 
-def complaints_of(case: dict) -> list[tuple[str, str, str]]:
+def oracle_safe(case: dict, obs: dict) -> list[tuple[str, str, str]]:
     try:
-        return oracle(case, run_real(case))
+        return oracle(case, obs)
     except core.InfraError:
         return []
+
+
+def complaints_of(case: dict) -> list[tuple[str, str, str]]:
+    return oracle_safe(case, run_real(case, observe=True))
 
 
 def shrink_case(case: dict, key: tuple[str, str], max_runs: int = 400) -> dict:
@@ -1372,23 +1764,43 @@ def shrink_case(case: dict, key: tuple[str, str], max_runs: int = 400) -> dict:
 
 
 def summarize(obs: dict) -> dict:
-    return {
-        "returned": obs["ret"], "raised": obs["raised"],
-        "matches": [{k: m[k] for k in ("op", "attached", "flag", "events", "wl") if k in m} |
-                    {"calls": [show_action(a) for a in m["acts"]]} for m in obs["matches"][:12]],
-        "sweeps": [s["pushes"] for s in obs["sweeps"][:4]],
-        "probe": obs.get("probe"), "final_text": obs["final_text"][:1500],
-    }
+    def one(st: dict) -> dict:
+        return {
+            "returned": st["ret"], "raised": st["raised"], "handler_sets_on_listener": st["registered"],
+            "matches": [{k: m[k] for k in ("op", "attached", "flag", "events", "wl") if k in m} |
+                        {"calls": [show_action(a) for a in m["acts"]]} for m in st["matches"][:12]],
+            "sweeps": [s["pushes"] for s in st["sweeps"][:4]],
+            "probe": st.get("probe"), "final_text": st["final_text"][:1500],
+        }
+    d = one(obs)
+    if obs.get("more"):
+        d["later_calls"] = [one(st) for st in obs["more"]]
+    w = wl_complaint(obs)
+    if w is not None:
+        d["worklist"] = w[2]
+    return d
+
+
+FOUND: dict[tuple[str, str], tuple] = {}
+
+
+def report_found(ctx: core.Ctx) -> None:
+    for (site, sig), (_, small, sdesc, summary) in FOUND.items():
+        ctx.fail(site, sig, small, sdesc, summary, None)
+    FOUND.clear()
 
 
 def check_cases(ctx: core.Ctx, cases: list[dict], shrunk: set) -> None:
     batch_lines: list[str] = []
-    spans: list[tuple[int, dict, str]] = []
+    spans: list[tuple[int, dict, str, bool]] = []
+    wl_lines: list[str] = []
+    wl_spans: list[tuple[int, int, dict, list[str]]] = []
     for case in cases:
         obs = run_real(case)
+        stages = all_stages(obs)
         ctx.ev()
         cfg = case["cfg"]
-        acted = any(m["acts"] for m in obs["matches"])
+        acted = any(m["acts"] for st in stages for m in st["matches"])
         if acted:
             ctx.nt(json.dumps(case, sort_keys=True))
         ctx.count("cfg.recursive" if cfg["rec"] else "cfg.non_recursive")
@@ -1399,24 +1811,74 @@ def check_cases(ctx: core.Ctx, cases: list[dict], shrunk: set) -> None:
             ctx.count("cfg.post_walk_dce")
         for p in case["pats"]:
             ctx.count("pattern." + p[0])
-        for m in obs["matches"]:
-            for a in m["acts"]:
-                ctx.count("call." + a[0])
-        ctx.count("invocations", len(obs["matches"]))
-        ctx.count("sweeps", len(obs["sweeps"]))
+        ctx.count(f"history.calls={len(stages)}")
+        for st in stages[1:]:
+            ctx.count("history.later_call")
+            if st["matches"] and any(m["acts"] for m in st["matches"]):
+                ctx.count("history.later_call_with_rewrites")
+            if st["edit_line"]:
+                ctx.count("history.edit." + st["edit_line"].split()[1])
+            if not st["whole_module"]:
+                ctx.count("history.call_on_inner_region")
+        for st in stages:
+            for m in st["matches"]:
+                for a in m["acts"]:
+                    ctx.count("call." + a[0])
+            ctx.count("invocations", len(st["matches"]))
+            ctx.count("sweeps", len(st["sweeps"]))
+        trace = obs["wl_trace"]
+        ctx.count("worklist.ops", len(trace))
+        # removal of an item that is queued below the top / push after such a removal / removal of an item
+        # pushed after a hole: the shapes a wrong index needs
+        holes = False
+        pushed_after_hole: set = set()
+        for op, arg, out, present in trace:
+            if op == "remove" and out == "ok":
+                if arg in pushed_after_hole:
+                    ctx.count("worklist.remove_of_item_pushed_after_a_hole")
+                holes = True
+            elif op == "push" and holes:
+                pushed_after_hole.add(arg)
+            elif op == "bool" and not present:
+                holes = False
+                pushed_after_hole.clear()
         for site, sig, desc in oracle(case, obs):
             key = (site, sig)
             small = case
-            if key not in shrunk:
-                shrunk.add(key)
+            lifo = cfg.get("perturb") is None
+            if (key, lifo) not in shrunk and not (not lifo and (key, True) in shrunk):
+                shrunk.add((key, lifo))
                 small = shrink_case(case, key)
             sobs = run_real(small)
-            sdesc = next((d for s, g, d in oracle(small, sobs) if (s, g) == key), desc)
-            ctx.fail(site, sig, small, sdesc, summarize(sobs), None)
-        if obs["raised"] is None:
-            lines = model_lines(case, obs)
+            sdesc = next((d for s, g, d in oracle_safe(small, sobs) if (s, g) == key), desc)
+            # one failing input per (call site, signature) is reported at the end of the run: an input that fails
+            # with the walker's own LIFO schedule is preferred to one that needs a perturbed schedule, then size
+            rank = (small["cfg"].get("perturb") is not None, len(json.dumps(small)))
+            best = FOUND.get(key)
+            if best is None or rank < best[0]:
+                FOUND[key] = (rank, small, sdesc, summarize(sobs))
+        for st in stages:
+            if st["raised"] is not None or obs["undisciplined"]:
+                break
+            lines = model_lines(case, st)
             batch_lines.extend(lines)
-            spans.append((len(batch_lines) - 1, case, impl_trace(case, obs)))
+            spans.append((len(batch_lines) - 1, case, impl_trace(case, st), not st["registered"]))
+        wl, wimpl = wl_model_lines(trace)
+        wl_spans.append((len(wl_lines), len(wl), case, wimpl))
+        wl_lines.extend(wl)
+    if wl_lines:
+        wout = ctx.model("worklist", wl_lines)
+        for pos, n, case, wimpl in wl_spans:
+            got = wout[pos:pos + n]
+            if got != wimpl:
+                i = core.diff_streams(wimpl, got)
+                lo = max(0, (i or 0) - 8)
+                ctx.mismatch("correspondence:C11/worklist", case,
+                             {"lines": wl_lines[pos + lo:pos + (i or 0) + 1], "answers": wimpl[lo:(i or 0) + 1]},
+                             got[lo:(i or 0) + 1],
+                             "the push/remove/pop/bool trace of the walker's real worklist, replayed on the Lean model "
+                             "XdslModel/Worklist.lean, gives different results or contents")
+                break
     if not spans:
         return
     out = ctx.model("rewrite_driver", batch_lines)
@@ -1425,7 +1887,7 @@ def check_cases(ctx: core.Ctx, cases: list[dict], shrunk: set) -> None:
         i = out.index("bad-op")
         raise core.InfraError(f"model rejected protocol line: {batch_lines[i]}")
     def mask(tr: str) -> str:
-        # configuration without any registered listener: the events column cannot be observed
+        # call without any registered handler: the events column cannot be observed
         items = []
         for it in tr.split(" ; "):
             f = it.split(" | ")
@@ -1434,9 +1896,9 @@ def check_cases(ctx: core.Ctx, cases: list[dict], shrunk: set) -> None:
             items.append(" | ".join(f))
         return " ; ".join(items)
 
-    for idx, case, impl in spans:
+    for idx, case, impl, unobserved in spans:
         got = out[idx]
-        if case["cfg"].get("lst", 1) == 0:
+        if unobserved:
             got, impl = mask(got), mask(impl)
         if got != impl:
             ctx.mismatch("correspondence:C11/rewrite_driver", case, impl, got,
@@ -1447,16 +1909,20 @@ def check_cases(ctx: core.Ctx, cases: list[dict], shrunk: set) -> None:
 def run(ctx: core.Ctx) -> None:
     ctx.lean()
     shrunk: set = set()
-    seeds = seed_cases()
-    check_cases(ctx, seeds, shrunk)
-    ctx.count("cases.seed", len(seeds))
+    FOUND.clear()
     quick = ctx.tier == "quick"
-    reserve = 12 if quick else 60
     n = 0
-    while ctx.time_left() > reserve and n < (2500 if quick else 200000):
-        batch = [gen_case(ctx.rng, 7 if quick else 11) for _ in range(100)]
-        check_cases(ctx, batch, shrunk)
-        n += len(batch)
+    try:
+        seeds = seed_cases()
+        check_cases(ctx, seeds, shrunk)
+        ctx.count("cases.seed", len(seeds))
+        reserve = 12 if quick else 60
+        while ctx.time_left() > reserve and n < (2500 if quick else 200000):
+            batch = [gen_case(ctx.rng, 7 if quick else 11) for _ in range(100)]
+            check_cases(ctx, batch, shrunk)
+            n += len(batch)
+    finally:
+        report_found(ctx)
     ctx.count("cases.random", n)
     mid = seeds[len(seeds) // 2]
     ctx.sample({"case": mid, "observation": summarize(run_real(mid))}, cap=2)
@@ -1466,28 +1932,62 @@ def run(ctx: core.Ctx) -> None:
 def replay(ctx: core.Ctx, body: dict) -> int:
     case = body["case"]
     obs = run_real(case)
+    stages = all_stages(obs)
     print("case:", json.dumps(case))
     print("initial IR:\n" + obs["initial_text"])
-    print("final IR:\n" + obs["final_text"])
-    print("returned:", obs["ret"], "raised:", obs["raised"], "fixpoint probe:", obs.get("probe"))
-    for m in obs["matches"]:
-        print(f"  match op {m['op']} attached={m['attached']} calls={[show_action(a) for a in m['acts']]} "
-              f"has_done_action={m['flag']} listener={m['events']} worklist={m['wl']}")
-    comp = oracle(case, obs)
-    for s, g, d in comp:
-        print("ORACLE:", s, "|", g, "|", d)
-    if obs["raised"] is None:
-        try:
-            out = ctx.model("rewrite_driver", model_lines(case, obs))[-1]
-            print("lean model trace :", out)
-            print("implementation   :", impl_trace(case, obs))
-            if out != impl_trace(case, obs):
-                print("model and implementation DIFFER")
-                if body.get("kind") == "broken-correspondence":
-                    return 1
-        except core.InfraError as e:
-            print("model not available:", e)
+    for st, sd in zip(stages, stages_of(case)):
+        if len(stages) > 1 or st["stage"]:
+            print(f"--- call #{st['stage']} on the walker ({'module body' if st['whole_module'] else 'inner region'}; "
+                  f"before it: {st['edit_line'] or 'no listener edit'}, rearm={sd.get('rearm', 0)}); "
+                  f"handler sets on walker.listener: {st['registered']}")
+        print("returned:", st["ret"], "raised:", st["raised"], "fixpoint probe:", st.get("probe"))
+        for m in st["matches"]:
+            print(f"  match op {m['op']} attached={m['attached']} calls={[show_action(a) for a in m['acts']]} "
+                  f"has_done_action={m['flag']} listeners={m['ev_all']} worklist={m['wl']}")
+        print("IR after the call:\n" + st["final_text"])
+    d = wl_spec_divergence(obs["wl_trace"])
+    if d is not None:
+        i = d[0]
+        print("worklist trace of the walker (operation, argument, result, items present afterwards):")
+        for t in obs["wl_trace"][max(0, i - 12):i + 1]:
+            print("   ", t)
+    try:
+        comp = oracle(case, obs)
+    except core.InfraError as e:
+        print("outside the quantifier:", e)
+        comp = []
+    for s_, g, d_ in comp:
+        print("ORACLE:", s_, "|", g, "|", d_)
+    differ = False
+    try:
+        lines: list[str] = []
+        ends: list[tuple[int, dict]] = []
+        for st in stages:
+            if st["raised"] is not None or obs["undisciplined"]:
+                break
+            lines.extend(model_lines(case, st))
+            ends.append((len(lines) - 1, st))
+        if lines:
+            out = ctx.model("rewrite_driver", lines)
+            for idx, st in ends:
+                impl = impl_trace(case, st)
+                print(f"lean model trace (call #{st['stage']}):", out[idx])
+                print(f"implementation   (call #{st['stage']}):", impl)
+                if out[idx] != impl and st["registered"]:
+                    print("model and implementation DIFFER")
+                    differ = True
+        wl, wimpl = wl_model_lines(obs["wl_trace"])
+        wout = ctx.model("worklist", wl)
+        if wout != wimpl:
+            i = core.diff_streams(wimpl, wout) or 0
+            print(f"worklist trace replayed on the Lean worklist model DIFFERS at line {i} `{wl[i]}`: "
+                  f"real {wimpl[i]!r}, model {wout[i]!r}")
+            differ = True
+    except core.InfraError as e:
+        print("model not available:", e)
+    if differ and body.get("kind") == "broken-correspondence":
+        return 1
     want = (body.get("call_site"), body.get("signature"))
-    bad = any((s, g) == want for s, g, _ in comp) if body.get("kind") == "failing-input" else bool(comp)
+    bad = any((s_, g) == want for s_, g, _ in comp) if body.get("kind") == "failing-input" else bool(comp)
     print("property", "FAILS" if bad else "holds", "on this case")
     return 1 if bad else 0
